@@ -99,7 +99,8 @@ refresh tokens but returns no id_token on refresh. ≈2.5 k evaluations / 2.3 k 
 The oauth2 library retries a failed refresh grant with the other client-auth style, so failing grants appear twice in the
 log (counts are only asserted for successful refreshes). 6/6 own mutants caught.
 Round 2 added: a scheduled sign-out-versus-refresh scenario (all interleavings of one stale request and one sign-out on two replicas, rotating and non-rotating provider: `c12:session-resurrected-after-concurrent-sign-out`) and a provider without refresh support re-validating at its validation URL (429 / 5xx / stall answers).
-Round 3 added: the first two stress rounds of every universe run against a provider whose refresh endpoint answers after 1.25 s / 1.75 s — inside the refresh lock's 2 s, so the property's proviso holds and exactly one refresh with everybody served is still required.""",
+Round 3 added: the first two stress rounds of every universe run against a provider whose refresh endpoint answers after 1.25 s / 1.75 s — inside the refresh lock's 2 s, so the property's proviso holds and exactly one refresh with everybody served is still required.
+Round 4 added: a stuck-lock scenario on its own universe (the lock key of a stale session is held for the whole 5 s obtain timeout: the request must not be served); every other legacy-provider case uses a session split over several cookies (300 profile groups); after every refused stale request the session cookies that the REFUSING response carried are presented again by a client that ignores deletions — with validation still failing they must not be served (`c12:refusal-hands-out-honoured-credential`, found F23).""",
 "C13": """*As built* (`harness/c13_storefaults.go`). 10 scenarios × (positions 1…n+1) × 17 fault kinds, each with go-redis retries
 off (crisp per-operation rules) and on (retry-agnostic invariants only); 12 parallel cells (own miniredis + hub + 2
 instances each); thorough adds all ordered pairs × 5 kinds. A cookie counts as "handed out" only if it is still in the jar
@@ -127,7 +128,8 @@ network set also configured in reverse order; reverse-proxy mode with a client-I
 sent from a peer INSIDE a configured network (the peer's address must not be used instead). ≈225 k evaluations / 4.3 k cells
 quick (≈30 s idle). Reverse-proxy mode without the client-IP header (unchanged tree: no exemption) is recorded, not judged.
 Found: F1 (fixed).
-Round 3 added: peers WITHOUT an IP address (`@` as net/http reports a unix-socket peer, `unix`, `:80`, garbage) against every network set incl. a loopback set and 0.0.0.0/0 (`c15:addressless-peer-exempted`); a legacy rule set whose expressions contain `=` and `!=`. ≈254 k evaluations / 4.9 k cells quick.""",
+Round 3 added: peers WITHOUT an IP address (`@` as net/http reports a unix-socket peer, `unix`, `:80`, garbage) against every network set incl. a loopback set and 0.0.0.0/0 (`c15:addressless-peer-exempted`); a legacy rule set whose expressions contain `=` and `!=`. ≈254 k evaluations / 4.9 k cells quick.
+Round 4 added queries containing `://` (`?next=http://h.test<literal>`).""",
 "C16": """*As built* (`harness/c16_forwarding.go`). 9 configurations × 27 base requests × 64 header subsets × 3 (quick) / 6 value
 sets; every base request is first executed twice (determinism guard: differing identical executions are inconclusive, not
 violations); one configuration over the wire driver, `--force-https` over the TLS wire driver (req.TLS ≠ nil). With
@@ -164,7 +166,8 @@ the provider answers after 120 ms — stale session (refresh / re-validation at 
 boundary values: 388 single-option configurations) plus 120 / 1500 seeded combinations; every configuration that passes
 validation (≈85 %) serves a smoke set of ≈50 requests including a complete login over http and "https". Found: F2 and two
 CSRF-cookie panics (fixed).
-Round 3 added separator-only and unparseable values to the forwarding-header pools.""",
+Round 3 added separator-only and unparseable values to the forwarding-header pools.
+Round 4 added: a `--proxy-websockets=false` configuration and `Connection` header variants, twelve bcrypt users in the htpasswd file (verified on the slow path, concurrently), the websocket / flush-interval / upstream-timeout options in the configuration space, and race-detector reports with frames in request-handling code are violations (`c19:data-race-in-request-handling`: concurrent map access is a fatal error no recover() sees) instead of notes.""",
 "C20": """*As built* (`harness_basic/c20_basic.go` in package basic, `harness/c20_reload.go`). Basic half: 10 (quick) / 100
 histories of one reloader + 2–16 validators checked with porcupine (every fifth history with a bcrypt entry and ≤ 3
 validators — slow validations overlap several reloads and porcupine's search grows steeply), 6 / 60 rounds of two overlapping
@@ -177,7 +180,8 @@ replacement written 0.2–3 s later (quick: 1.5 s, first round) — the replacem
 a progress monitor in both halves (2000 heartbeats of a goroutine of the same process, ≥ 20 s of it being scheduled, without a
 single completed validation or reload while both are running ⇒ `c20:validators-and-reload-block-each-other` with a goroutine
 dump, instead of a hang). ≈115 k validations quick (≈45 s). Found: F5 (fixed). 7/7 own mutants caught.
-Round 3 added: every other atomic replacement arrives with an mtime OLDER than or equal to the file it replaces (mv of a prepared copy, rsync -t); an event-storm phase on its own instance, next to the rounds — 60 000 content-preserving events per file within ≈100 ms (chmod toggles alternating with a one-byte overwrite of the first byte by itself; the kernel's inotify queue holds 16 384), then an in-place rewrite every 400 ms for 25 s (quick) / 90 s, each of which must come into force within 10 s (observed on the unchanged tree: ≤ 100 ms). Replacements by rename are deliberately not used while the queue may still be full: the kernel then drops the rename event and ANY inotify-based watcher stays on the replaced inode — observed on the unchanged tree, not a property of the watcher's code.""",
+Round 3 added: every other atomic replacement arrives with an mtime OLDER than or equal to the file it replaces (mv of a prepared copy, rsync -t); an event-storm phase on its own instance, next to the rounds — 60 000 content-preserving events per file within ≈100 ms (chmod toggles alternating with a one-byte overwrite of the first byte by itself; the kernel's inotify queue holds 16 384), then an in-place rewrite every 400 ms for 25 s (quick) / 90 s, each of which must come into force within 10 s (observed on the unchanged tree: ≤ 100 ms). Replacements by rename are deliberately not used while the queue may still be full: the kernel then drops the rename event and ANY inotify-based watcher stays on the replaced inode — observed on the unchanged tree, not a property of the watcher's code.
+Round 4 added: an empty e-mails file (0 bytes, a lone newline) is a version — nobody may be admitted once it is in place, and the next version loads again. (An htpasswd file without a valid entry is by the loader's definition a failed load and stays with the malformed versions.)""",
 }
 
 def main():
